@@ -127,6 +127,11 @@ class WriterModel:
                 for cn in self.mod.classes:
                     if cn.lower() == v.id.lower() and (cn, f.attr) in self.funcs:
                         return (cn, f.attr), v
+                # loop variable over an attribute of the object whose element class the constructor declares
+                # (`def __init__(self, points: List[Point]): self.points = points` ... `for p in self.points`)
+                cn = self._loop_element_class(cls, v.id)
+                if cn is not None and (cn, f.attr) in self.funcs:
+                    return (cn, f.attr), v
             if isinstance(v, ast.Call):
                 # Point(..).create_node()  /  Pointlist.create_from_numpy_array(x).add_points_to_node(n)
                 cn = call_name(v)
@@ -139,6 +144,36 @@ class WriterModel:
                         if (c0, f.attr) in self.funcs:
                             return (c0, f.attr), v
         return None, None
+
+    def _loop_element_class(self, cls, var):
+        """class of the elements a loop variable of some method of `cls` runs over, when the loop is over `self.A` and
+        the constructor stores a parameter annotated List[C] / Iterable[C] / Tuple[C, ...] under A (C a class of this
+        module); None when there is no such single answer"""
+        if cls is None:
+            return None
+        found = set()
+        for m in cls.methods.values():
+            for n in ast.walk(m):
+                it = None
+                if isinstance(n, ast.For) and isinstance(n.target, ast.Name) and n.target.id == var:
+                    it = n.iter
+                elif isinstance(n, ast.comprehension) and isinstance(n.target, ast.Name) and n.target.id == var:
+                    it = n.iter
+                if it is None or not (isinstance(it, ast.Attribute) and isinstance(it.value, ast.Name) and it.value.id == "self"):
+                    continue
+                init = cls.methods.get("__init__")
+                if init is None:
+                    continue
+                anns = {a.arg: a.annotation for a in init.args.args if a.annotation is not None}
+                for st in ast.walk(init):
+                    if isinstance(st, ast.Assign) and len(st.targets) == 1 and isinstance(st.targets[0], ast.Attribute) and isinstance(st.targets[0].value, ast.Name) and st.targets[0].value.id == "self" and st.targets[0].attr == it.attr and isinstance(st.value, ast.Name) and st.value.id in anns:
+                        ann = anns[st.value.id]
+                        if isinstance(ann, ast.Subscript) and norm(ann.value).split(".")[-1] in ("List", "Iterable", "Sequence", "Tuple", "list", "tuple"):
+                            inner = ann.slice.elts[0] if isinstance(ann.slice, ast.Tuple) else ann.slice
+                            name = norm(inner).strip("'\"")
+                            if name in self.mod.classes:
+                                found.add(name)
+        return next(iter(found)) if len(found) == 1 else None
 
     # ---------------------------------------------------------------- interpretation
     def interpret_into(self, key, env):
